@@ -259,6 +259,38 @@ def float_test(src_text, spec):
             f"Definition {spec['name']} (F : fops) ({args} : ft F) : bool :=\n{term}.\n"), h
 
 
+MV_STEPS = {
+    "source = normalize_axis(source, a.ndim)": "MvNormSrc",
+    "destination = normalize_axis(destination, a.ndim)": "MvNormDst",
+    "len(set(destination)) < len(destination)": "MvRepeatDst",
+    "len(source) != len(destination)": "MvLen",
+}
+
+
+def moveaxis_steps(src_text, spec):
+    """the four validation statements of moveaxis, in the order in which the function executes them"""
+    tree = ast.parse(src_text)
+    fn = py2v.find_function(tree, spec["func"])
+    steps = []
+    for st in fn.body:
+        if isinstance(st, ast.Assign) and ast.unparse(st) in MV_STEPS:
+            steps.append(MV_STEPS[ast.unparse(st)])
+        elif isinstance(st, ast.If) and ast.unparse(st.test) in MV_STEPS:
+            if st.orelse or len(st.body) != 1 or not isinstance(st.body[0], ast.Raise) or \
+                    not ast.unparse(st.body[0].exc).startswith("ValueError"):
+                raise SiteError("moveaxis guard is no longer `if <test>: raise ValueError`")
+            steps.append(MV_STEPS[ast.unparse(st.test)])
+        elif any(isinstance(n, ast.Raise) for n in ast.walk(st)) or "normalize_axis" in ast.unparse(st):
+            raise SiteError(f"unexpected validation statement in moveaxis: {ast.unparse(st)[:60]}")
+    if sorted(steps) != sorted(MV_STEPS.values()):
+        raise SiteError(f"moveaxis validation statements changed: {steps}")
+    if not isinstance(fn.body[-1], ast.Return) or ast.unparse(fn.body[-1]) != "return a.transpose(order)":
+        raise SiteError("moveaxis no longer ends in a.transpose(order)")
+    h = hashlib.sha256(" ".join(steps).encode()).hexdigest()[:16]
+    return (f"(* validation steps of {spec['file']}:{spec['func']} in source order; the function ends in a.transpose(order) *)\n"
+            f"Definition {spec['name']} : list mv_step := [{'; '.join(steps)}].\n"), h
+
+
 def generate(repo):
     sp = importlib.util.spec_from_file_location(
         "frags_validators", os.path.join(os.path.dirname(_HERE), "frags", "validators.py"))
@@ -270,6 +302,11 @@ def generate(repo):
         try:
             with open(os.path.join(repo, spec["file"])) as f:
                 text = f.read()
+            if spec["locator"][0] == "moveaxis_steps":
+                coq, h = moveaxis_steps(text, spec)
+                out.append(coq)
+                report[spec["name"]] = {"status": "ok", "hash": h}
+                continue
             if spec["locator"][0] == "float_test":
                 coq, h = float_test(text, spec)
                 out.append(coq)
